@@ -488,6 +488,38 @@ var Catalogue = []Program{
 	{`items^(>q).p`, "arrs"},
 	{`$replace(name, /\d/, function($m){$m.match & "!"})`, "str"},
 	{`items[q > $$.id].p.$lowercase()`, "arrs"},
+	// the same picture / pattern / layout under different options: whichever
+	// a process meets first must not decide what the other one gives
+	{`$formatNumber(1234.5678, "#,##0.00")`, "str"},
+	{`$formatNumber(1234.5678, "#,##0.00", {"decimal-separator": ",", "grouping-separator": "."})`, "str"},
+	{`$formatNumber(1234.5678, "#.##0,00")`, "str"},
+	{`$formatNumber(1234.5678, "#.##0,00", {"decimal-separator": ",", "grouping-separator": "."})`, "str"},
+	{`$formatNumber(-0.5, "0.0;(0.0)")`, "str"},
+	{`$formatNumber(-0.5, "0.0;(0.0)", {"minus-sign": "~"})`, "str"},
+	{`$formatNumber(0.25, "0%")`, "str"},
+	{`$formatNumber(0.25, "0%", {"percent": "pc"})`, "str"},
+	{`$formatNumber(12, "#0", {"zero-digit": "٠"})`, "str"},
+	{`$formatNumber(12, "#0")`, "str"},
+	{`$fromMillis(1510067557121, "[Y0001]-[M01]-[D01]")`, "str"},
+	{`$fromMillis(1510067557121, "[Y0001]-[M01]-[D01]", "+0530")`, "str"},
+	{`$fromMillis(1510067557121, "[H01]:[m01] [Z]", "-0800")`, "str"},
+	{`$fromMillis(1510067557121, "[H01]:[m01] [Z]")`, "str"},
+	{`$toMillis("2017-11-07", "[Y0001]-[M01]-[D01]")`, "num"},
+	{`$toMillis("07/11/2017", "[D01]/[M01]/[Y0001]")`, "num"},
+	{`$replace("abcabc", /b/, "X")`, "str"},
+	{`$replace("abcabc", /b/, "X", 1)`, "str"},
+	{`$split("a1b22c", /\d+/)`, "arrs"},
+	{`$split("a1b22c", /\d/)`, "arrs"},
+	{`$match("a1b22c", /\d+/).match`, "arrs"},
+	{`$contains("a1b22c", /\d{2}/)`, "bool"},
+	{`$formatBase(255, 16)`, "str"},
+	{`$formatBase(255, 2)`, "str"},
+	{`$pad("x", 5, "ab")`, "str"},
+	{`$pad("x", -5, "ab")`, "str"},
+	{`$number("0x1F")`, "fail"},
+	{`$string(1e21)`, "str"},
+	{`$round(2.5)`, "num"},
+	{`$round(-2.5, 0)`, "num"},
 }
 
 // HasExt reports whether the program text uses a harness extension.
